@@ -117,4 +117,4 @@ class CommunicationHandshakeWrapper(Wrapper):
         and we add 'message_buffer' for incoming messages.
         """
         obs_from_sim = self.sim.get_obs(agent_id, fusion_matrix=self.received_message[agent_id])
-        return {'obs': obs_from_sim, 'message_buffer': self.message_buffer[agent_id]}
+        return {'obs': obs_from_sim, 'message_buffer': dict(self.message_buffer[agent_id])}
